@@ -981,7 +981,7 @@ class Variable(CanBehaveLikeAVariable[T]):
                 or self is self._conditions_root_
             ):
                 self._is_false_ = not bool(sources[self._id_])
-            yield OperationResult(sources, not bool(sources[self._id_]), self)
+            yield OperationResult(sources, self._truth_value_is_false_(sources[self._id_]), self)
         elif self._domain_:
             for v in self._domain_:
                 yield OperationResult(
@@ -1030,7 +1030,22 @@ class Variable(CanBehaveLikeAVariable[T]):
         values = {self._id_: hv}
         for d in kwargs.values():
             values.update(d.bindings)
-        return OperationResult(values, not bool(instance), self)
+        return OperationResult(values, self._truth_value_is_false_(instance), self)
+
+    def _truth_value_is_false_(self, value: Any) -> bool:
+        """
+        The value of a variable only has a truth value where it is used as a condition. As an operand (of a
+        comparator, an attribute access, a call, ...) a falsy value like 0 or "" is a value like any other.
+
+        :param value: The current value of this variable.
+        :return: True if this variable is used as a condition and its value is falsy.
+        """
+        used_as_condition = (
+            self._parent_ is None
+            or isinstance(self._parent_, (LogicalOperator, QueryObjectDescriptor))
+            or self is self._conditions_root_
+        )
+        return used_as_condition and not bool(value)
 
     @property
     def _name_(self):
